@@ -90,6 +90,12 @@ Theorem C01_generated_close_order : close_stops_consumers_before_requeue = true.
 Proof. reflexivity. Qed.
 Print Assumptions C01_generated_close_order.
 
+(* the auto-delete turn of the model deletes a queue only if it is still an auto-delete queue, and if unused; so does
+   the code (read off the source on every run): defect F74 of the unchanged tree, repaired *)
+Theorem C01_generated_autodelete_guard : autodelete_turn_checks_the_queue = true.
+Proof. reflexivity. Qed.
+Print Assumptions C01_generated_autodelete_guard.
+
 (* Non-vacuity: three messages delivered to a consumer, one acked, channel closed: the other two are back, in order,
    ahead of a message published meanwhile. *)
 Example C01_example :
